@@ -94,17 +94,14 @@ def invalid_requests(cfg, addr_of):
 
 
 def get_rig(cfgkey):
+    """fresh simulator per state expansion (see props/c03_tags.get_rig)"""
     typ, variant, nvals, seam, via_main = cfgkey
-    r = _rig.get("rig")
-    if r is None or _rig.get("key") != cfgkey:
-        r = TS.Rig(TS.config(typ, variant), seam=seam, via_main=via_main)
-        _rig["rig"], _rig["key"] = r, cfgkey
+    r = TS.Rig(TS.config(typ, variant), seam=seam, via_main=via_main)
+    if _rig.get("key") != cfgkey:
+        _rig["key"] = cfgkey
         _rig["closed"] = [q for q, closed in TS.valid_requests(r.cfg, r.sim.addr_of, nvals, cross=False)
                           if q[0] in ("wt",) and q[1][0] == "sym" and q[1][1] == q[1][1].lower()]
         _rig["alphabet"] = list(invalid_requests(r.cfg, r.sim.addr_of))
-        if seam == "rr":
-            r.addr2 = ("127.0.0.2", 20002)
-            r.session2 = r.sim.register(r.addr2)
     return r, _rig["closed"], _rig["alphabet"]
 
 
@@ -117,37 +114,41 @@ def readback(rig, name, both_sessions):
     for q in reqs:
         bad += rig.step(q)
     if both_sessions and rig.seam == "rr":
-        s1, a1 = rig.session, rig.addr
-        rig.session, rig.addr = rig.session2, rig.addr2
+        rig.swap_session()
         try:
             for q in reqs:
                 bad += [("second-session:" + k, m) for k, m in rig.step(q)]
         finally:
-            rig.session, rig.addr = s1, a1
+            rig.swap_session()
     return bad
 
 
 def expand(acc, item, tier, seed):
     cfgkey, states, (k_, K_) = item
-    rig, closed, alphabet = get_rig(cfgkey)
-    alphabet = alphabet[k_::K_]
-    if k_:
-        closed = []
+    alphabet = None
     for state in states:
+        rig, closed, alphabet = get_rig(cfgkey)
+        alphabet = alphabet[k_::K_]
+        if k_:
+            closed = []
+
+        def viol(k, m):
+            acc.violation(k, {"cfg": cfgkey, "state": state, "history": list(rig.log)}, m)
+
         for k, m in rig.seat(state):
-            acc.violation(k, {"cfg": cfgkey, "state": state, "req": None}, m)
+            viol(k, m)
         base = rig.state()
         # successors of the store graph (same-type whole/partial writes by name): keeps the graph identical to C03's
         for req in closed:
             bad = rig.step(req)
             acc.count("transitions")
             after = rig.state()
+            for k, m in bad:
+                viol(k, m)
             if after != base:
                 acc.succ.add((cfgkey, after))
                 for k, m in rig.seat(state):
-                    acc.violation(k, {"cfg": cfgkey, "state": state, "req": req}, m)
-            for k, m in bad:
-                acc.violation(k, {"cfg": cfgkey, "state": state, "req": req}, m)
+                    viol(k, m)
         for req in alphabet:
             acc.ev()
             acc.ntc()
@@ -169,15 +170,13 @@ def expand(acc, item, tier, seed):
                     acc.count("acked_writes_read_back")
             else:
                 acc.outcome("%s:%s" % (req[0], "ok" if acked else ("refused" if rpy is not None else "enip-error")))
-            if rig.seam == "rr" and rpy is None:
-                # an encapsulation-level error ends that session (non-zero enip status): open a new one for the next case
-                rig.session = rig.sim.register(rig.addr)
             for k, m in bad:
-                acc.violation(k, {"cfg": cfgkey, "state": state, "req": req}, m)
+                viol(k, m)
             if rig.state() != base:
                 for k, m in rig.seat(state):
-                    acc.violation(k, {"cfg": cfgkey, "state": state, "req": req}, m)
-    acc.sample({"cfg": cfgkey, "state": states[0], "req": alphabet[len(alphabet) // 3]})
+                    viol(k, m)
+    if alphabet:
+        acc.sample({"cfg": cfgkey, "state": states[0], "history": [alphabet[len(alphabet) // 3]]})
 
 
 def run(ctx):
@@ -208,34 +207,29 @@ def guards(acc, ctx):
     return g
 
 
-def detuple(x):
-    if isinstance(x, list):
-        return tuple(detuple(v) for v in x)
-    return x
-
-
 def replay(case):
+    """Re-execute the recorded history on a fresh simulator; the last request gets the full treatment (judge + read-back)."""
     cfgkey = tuple(case["cfg"])
-    global _rig
-    _rig = {}
     rig, closed, alphabet = get_rig(cfgkey)
-    msgs = []
-    state = tuple((n, tuple(v)) for n, v in case["state"])
-    msgs += [m for k, m in rig.seat(state)]
-    if case.get("req") is not None:
-        req = detuple(case["req"])
-        rpy, exc = rig.execute(req)
-        msgs += [m for k, m in rig.model.judge(req, rpy, exc, rig.sim.store())]
-        tag, _, _ = rig.model.resolve(req[1])
+    hist = [TS.detuple(h) for h in case.get("history", [])]
+    msgs = TS.replay_history(rig, hist[:-1]) if len(hist) > 1 else []
+    if hist:
+        last = hist[-1]
+        if last[0] == "@2":
+            if not rig.on_second:
+                rig.swap_session()
+            last = last[1]
+        elif rig.on_second:
+            rig.swap_session()
+        rpy, exc = rig.execute(last)
+        msgs += [m for k, m in rig.model.judge(last, rpy, exc, rig.sim.store())]
+        tag, _, _ = rig.model.resolve(last[1])
         acked = False
         if rpy is not None:
             try:
                 acked = W.dec_reply(rpy)["status"] == 0
             except W.WireError:
                 pass
-        if acked and tag is not None and req[0] in ("wt", "wf", "sas"):
+        if acked and tag is not None and last[0] in ("wt", "wf", "sas") and not rig.on_second:
             msgs += [m for k, m in readback(rig, tag.name, True)]
-        if rig.seam == "rr" and rpy is None:
-            rig.session = rig.sim.register(rig.addr)
-        msgs += [m for k, m in rig.seat(state)]
     return msgs
